@@ -33,7 +33,7 @@ class Family:
         self.rx = re.compile(pattern)
         self.vars = tuple(variables)
         self.forms = forms
-        self.side = [(re.compile(r), lo, why) for r, lo, why in side]
+        self.side = [((re.compile(e[0]),) + tuple(e[1:])) for e in side]
         self.doc = doc
 
     def match(self, key):
@@ -41,6 +41,14 @@ class Family:
         if not m:
             return None
         return m.group(1), m.group(2)
+
+
+def _key(base, var):
+    if not base:
+        return var
+    if base.endswith(".") or base.endswith(">"):
+        return base + var
+    return "%s.%s" % (base, var)
 
 
 class Result:
@@ -87,13 +95,17 @@ class InvWalker(sym.Walker):
         m = self.fam.match(key)
         if m is not None:
             self.assume_base(st, m[0])
-        for rx, lo, _ in self.fam.side:
+        for ent in self.fam.side:
+            rx, lo = ent[0], ent[1]
             if rx.match(key):
-                st.cons.append((((key, 1),), lo))
+                if lo is not None:
+                    st.cons.append((((key, 1),), lo))
+                if len(ent) > 3 and ent[2] is not None:
+                    st.cons.append((((key, -1),), -ent[2]))
         return {key: 1}, 0
 
     def cur(self, st, base, var):
-        key = "%s.%s" % (base, var) if base else var
+        key = _key(base, var)
         return st.env.get(key, ({key: 1}, 0))
 
     def assume_base(self, st, base):
@@ -164,7 +176,7 @@ class InvWalker(sym.Walker):
         base = key.split("@")[0].split("#")[0]
         if self.fam.rx.match(base) or base in self._feeders:
             return True
-        return any(rx.match(base) for rx, _, _ in self.fam.side)
+        return any(e[0].match(base) for e in self.fam.side)
 
     def _compute_feeders(self):
         """Names whose value may flow into a family variable (flow-insensitive)."""
@@ -228,7 +240,7 @@ class InvWalker(sym.Walker):
         bases = self.touched(st)
         for base in bases:
             for v in self.fam.vars:
-                key = "%s.%s" % (base, v) if base else v
+                key = _key(base, v)
                 st.env[key] = ({"%s@%d" % (key, n): 1}, 0)
         st.user["assumed"] = frozenset()
         for base in bases:
@@ -327,7 +339,7 @@ def direct_writers(P, fam, units):
     return out
 
 
-def prove(P, fam, units, big=400):
+def prove(P, fam, units, big=400, engine=None):
     """Check the family over every writer in `units`.  Returns Result."""
     res = Result()
     dw = direct_writers(P, fam, units)
@@ -356,9 +368,62 @@ def prove(P, fam, units, big=400):
             except AnalysisBroken as e:
                 if "path explosion" not in str(e) and "a loop writes" not in str(e):
                     raise
-        _reset_rule(P, f, fam, nodes, writer_ids, res)
+        if engine is not None and all(len(c[0]) == 1 for c in fam.forms):
+            _e1_rule(P, engine, f, fam, nodes, res)
+        else:
+            _reset_rule(P, f, fam, nodes, writer_ids, res)
     res.proven = all(s[3] for s in res.sites)
     return res
+
+
+def _e1_rule(P, E, f, fam, nodes, res):
+    """Single-variable bounds in a function too large for path enumeration: at
+    every write the new value satisfies the bound, given E1's facts at that
+    point and the bounds of the family (for the old values) as hypotheses."""
+    from . import wbound, guard
+    an = E.analysis(f)
+    hyp = []
+    for coefs, c, text in fam.forms:
+        (v, k), = coefs.items()
+        rx = re.compile(fam.rx.pattern.replace("(" + "|".join(fam.vars) + ")", "(" + v + ")")) if len(fam.vars) > 1 else fam.rx
+        # k*v + c >= 0
+        if k > 0:
+            hyp.append((rx, -c // k if c % k == 0 else None, None, "induction hypothesis"))
+        else:
+            hyp.append((rx, None, c // -k, "induction hypothesis"))
+    saved = list(wbound.AXIOMS)
+    wbound.AXIOMS.extend(h for h in hyp if h[1] is not None or h[2] is not None)
+    try:
+        for nd in nodes:
+            ds = an.before_node(nd["n"])
+            if ds is None:
+                continue
+            lhs = sk(nd["a"][0])
+            base, var = fam.match(pp(lhs))
+            if nd.get("k") == "Bin" and nd["op"] == "=":
+                new = L.lin(nd["a"][1])
+            elif nd.get("k") == "Bin" and nd["op"] in ("+=", "-="):
+                a, b = L.lin(nd["a"][0]), L.lin(nd["a"][1])
+                new = None if a is None or b is None else (L.add(a, b) if nd["op"] == "+=" else L.sub(a, b))
+            elif nd.get("k") == "Un":
+                a = L.lin(nd["a"][0])
+                new = None if a is None else (a[0], a[1] + (1 if "++" in nd["op"] else -1))
+            else:
+                new = None
+            ty = wbound.atom_types(nd)
+            for coefs, c, text in fam.forms:
+                (v, k), = coefs.items()
+                if v != var:
+                    continue
+                ok = False
+                if new is not None:
+                    fm = ({a_: k * x for a_, x in new[0].items()}, k * new[1] + c)
+                    ok = all(wbound.nonneg(d, fm, ty) for d in ds)
+                res.sites.append((f, ir.loc(nd), "%s: %s [%s] at %s" % (fam.name, text, base, pp(nd)[:40]), ok,
+                                  "new value satisfies the bound (facts at the write + induction hypothesis)" if ok else
+                                  "cannot show that the value written keeps %s" % text))
+    finally:
+        wbound.AXIOMS[:] = saved
 
 
 def _reset_rule(P, f, fam, nodes, writer_ids, res):
